@@ -393,6 +393,8 @@ func runC03(c *Ctx) {
 	}
 	clauseMarkImpliesAdd(c, "C03.f")
 	runC03extra(c, at)
+	clauseOwnerNameDedup(c, "C03.j")
+	clauseGzipHelperOnlyForGzip(c, "C03.k")
 	c.assume("compress/gzip, klauspost/zstd and tar-split produce valid streams; countWriter counts the bytes handed to the buffered writer")
 }
 
